@@ -119,6 +119,12 @@ class STerm(SymVal):
         if name == 'disjoin': return Contract(lambda it, o: STerm.Op(Operator.Disjunction, self, o), 'Sentence.disjoin')
         if name == 'conjoin': return Contract(lambda it, o: STerm.Op(Operator.Conjunction, self, o), 'Sentence.conjoin')
         if name == 'unquantify' and self.kind == 'quant': return Contract(lambda it, c: self.unquantify(c), 'Quantified.unquantify')
+        if name in ('constants', 'variables', 'predicates', 'atomics') and self.kind in ('atom', 'op'):
+            # opaque operands stand for sentence letters here: no parameters, no predicates
+            if self.kind == 'atom': return frozenset()
+            out = frozenset()
+            for x in self.b: out |= x.sym_getattr(it, name)
+            return out
         if self.kind in ('atom', 'body', 'inst'):
             raise Outside(f'attribute {name} of an opaque sentence')
         raise Outside(f'sentence attribute {name}')
@@ -153,6 +159,9 @@ class STerm(SymVal):
         from pytableaux.lang import Operated, Quantified
         if self.kind == 'op': return Operated
         if self.kind == 'quant': return Quantified
+        if self.kind == 'atom':
+            from pytableaux.lang import Atomic
+            return Atomic            # an opaque operand is used as a sentence letter
         raise Outside('type() of an opaque sentence')
     def sym_truth(self, it): return True
 
